@@ -24,7 +24,8 @@ ASSUMPTIONS = [
 def required(tier):
     return ["sel:None", "sel:empty_list", "sel:empty_tuple", "sel:singleton", "sel:subset", "sel:superset", "sel:absent_only", "sel:duplicates",
             "empty_selection_on_nonempty_file", "replace:valid", "replace:empty", "replace:garbage", "replace:invalid_forced_first",
-            "replace:invalid_disorder", "all_40_pairs_selected", "from_filepath_selection_history"]
+            "replace:invalid_disorder", "all_40_pairs_selected", "from_filepath_selection_history",
+            "unhandled_sections_among_the_instrument_sections"]
 
 
 def shards(tier, seed):
@@ -210,6 +211,34 @@ def run_shard(shard, rec, tier, seed):
             rec.diag(f"baseline rejected: {harness.exc_str(full.exc)}")
             continue
         full_ob = harness.obs(full.chart)
+        if i % 2:
+            # sections the library does not handle ([ExpertVocals], [ProDrums] ...), holding note-like lines, before / between / after
+            # the instrument sections: reported and ignored — their content is nobody's track, selected or not
+            secs = [(n_, list(b)) for n_, b in case["sections"]]
+            donors = [b for n_, b in secs if n_ not in ("Song", "SyncTrack", "Events") and b] or [["  0 = N 0 0", "  0 = N 5 0", "  96 = N 7 48", "  96 = S 2 10"]]
+            for _ in range(rng.choice([1, 2, 3])):
+                title = rng.choice(["ExpertVocals", "ProDrums", "HardGuitarCoop", "ExpertSingleOld", "EasyKeys2", "Foo", "ExpertRealBass", "PracticeEvents"])
+                if title in [n_ for n_, _ in secs]:
+                    continue
+                body = list(rng.choice(donors))[: rng.choice([1, 5, 40])] if rng.random() < 0.7 else ["  0 = N 5 0", "  0 = N 0 0"]
+                secs.insert(rng.choice([0, 3, len(secs), rng.randint(0, len(secs))]) if len(secs) >= 3 else len(secs), (title, body))
+            text2 = gen.render_sections(secs, "\r\n" if "\r\n" in case["text"] else "\n")
+            out2 = harness.parse(text2)
+            rec.ev()
+            c2 = {"text": text2, "selection": None, "container": None, "baseline_text": case["text"]}
+            if not out2.ok:
+                rec.violation("interference", f"with unhandled sections {[n_ for n_, _ in secs if n_ not in dict(case['sections'])]} inserted the chart is rejected: "
+                              f"{harness.exc_str(out2.exc)}", c2, "unhandled-section-interferes")
+                continue
+            ob2 = harness.obs(out2.chart)
+            if observe.digest(ob2) != observe.digest(full_ob):
+                where = [k for k in full_ob if full_ob[k] != ob2[k]]
+                bad = [k for k in set(full_ob["tracks"]) | set(ob2["tracks"]) if full_ob["tracks"].get(k) != ob2["tracks"].get(k)]
+                rec.violation("interference", f"unhandled sections inserted (section order now {[n_ for n_, _ in secs]}): the parsed chart changed in {where} "
+                              f"(tracks affected: {bad[:4]})", c2, "unhandled-section-interferes")
+                continue
+            rec.cls("unhandled_sections_among_the_instrument_sections")
+            case = dict(case, text=text2)
         present = sorted(case["truth"]["tracks"])
         ppairs = [tuple(k.split("/")) for k in present]
         for sel, label, container in selections(rng, ppairs):
@@ -263,6 +292,12 @@ def replay(case, rec):
                 rec.violation("interference", f"track {i}/{d} changed", case)
         if shared(ob) != shared(full_ob):
             rec.violation("interference", "shared sections changed", case)
+        return
+    if case.get("baseline_text"):
+        base, out2 = harness.parse(case["baseline_text"]), harness.parse(case["text"])
+        rec.ev()
+        if base.ok and (not out2.ok or observe.digest(harness.obs(out2.chart)) != observe.digest(harness.obs(base.chart))):
+            rec.violation("interference", "unhandled sections change the parsed chart (or make it fail)", case)
         return
     full = harness.parse(case["text"])
     if not full.ok:
